@@ -333,6 +333,7 @@ type agg struct {
 	crashes     int
 	wallUS      int64
 	deadlocks   int
+	stopEarly   bool // VERIF_STOP_AT_FIRST: a violation that no listed finding explains ends the batch (tools/run_seeded.py)
 	digests     map[int]string
 	pairs       map[string]struct{}
 	forcedTried map[string]struct{}
@@ -356,6 +357,9 @@ func (a *agg) addFound(f *found) {
 	f.count = 1
 	a.found[f.sig] = f
 	a.order = append(a.order, f.sig)
+	if os.Getenv("VERIF_STOP_AT_FIRST") != "" && !strings.Contains(f.sig, "double-hash-in-payload") && !strings.Contains(f.sig, "first-event-satisfied-by-stale-prompt") {
+		a.stopEarly = true
+	}
 }
 
 func (a *agg) add(r *rec, tier string, keepDigests bool) {
@@ -418,7 +422,7 @@ func runWorker(bin, id, tier string, seed uint64, from, to, step int, budget tim
 		// each deadlocked run costs two minutes of real time: after a few of them the verdict is
 		// in, the rest of the batch is not run
 		a.mu.Lock()
-		enough := a.deadlocks >= 3
+		enough := a.deadlocks >= 3 || a.stopEarly
 		a.mu.Unlock()
 		if enough {
 			return
@@ -516,6 +520,12 @@ func runWorker(bin, id, tier string, seed uint64, from, to, step int, budget tim
 				inflight = -1
 				wmu.Unlock()
 				a.add(&r, tier, keepDigests)
+				a.mu.Lock()
+				stop := a.stopEarly
+				a.mu.Unlock()
+				if stop {
+					_ = cmd.Process.Kill()
+				}
 			case "done":
 				done = true
 			case "recycle":
@@ -526,6 +536,12 @@ func runWorker(bin, id, tier string, seed uint64, from, to, step int, budget tim
 		werr := cmd.Wait()
 		close(watch)
 		if done {
+			return
+		}
+		a.mu.Lock()
+		stopped := a.stopEarly
+		a.mu.Unlock()
+		if stopped {
 			return
 		}
 		if recycleFrom >= 0 && inflight < 0 {
